@@ -74,9 +74,20 @@ def auth_case(rng, user, dom, pw, flags, mode, ti=None, label="", pre=None, post
     line = "auth %s %s %s %s %s %s %s %s" % (mode, cps(dom), cps(user), secret, cps(user.upper()), nonce.hex(), key.hex(), chal.hex())
     return line, ("auth", user, dom, h.hex(), flags, label)
 
+def auth2_case(rng, user, dom, pw, flags1, flags2, mode):
+    l1, _ = auth_case(rng, user, dom, pw, flags1, mode)
+    l2, _ = auth_case(rng, user, dom, pw, flags2, mode)
+    t1, t2 = l1.split(), l2.split()
+    return "auth2 " + " ".join(t1[1:]) + " " + " ".join(t2[6:]), ("auth2",)
+
 def gen_cases(tier, rng):
     quick = tier == "quick"
     cases = [("negotiate", ("exact", "ok " + NEG.hex()))]
+    # TWO handshakes on one Ntlm object: nothing of the first (character set, keys, flags) may survive into the second
+    F0 = nlmp.CLIENT_FLAGS
+    for (f1, f2) in [(F0, F0 & ~nlmp.NEG_UNICODE), (F0 & ~nlmp.NEG_UNICODE, F0), (F0 | nlmp.NEG_VERSION, F0), (F0, F0 | nlmp.NEG_VERSION), (F0, F0)]:
+        for mode in ("pw", "hash"):
+            cases.append(auth2_case(rng, "alice", "Dom", "pw", f1, f2, mode))
     F = nlmp.CLIENT_FLAGS
     NEG_OEM = 0x00000002
     # with and without VERSION and UNICODE, and each of them with the OEM bit as well (MS-NLMP 2.2.2.5: UNICODE wins when both are set)
@@ -171,6 +182,15 @@ def oracle(line, out_full, expect):
     if "panic" in out.split() or "crashed" in out or "spin" in out.split():
         return "the handshake crashed: " + out[:200]
     t = line.split()
+    if t[0] == "auth2":
+        # each handshake is judged as if it were alone (same object, two CHALLENGEs)
+        outs = out.split(" / ")
+        if len(outs) != 2: return "two handshakes expected: " + out[:120]
+        for k in (0, 1):
+            sub = "auth " + " ".join(t[1:6]) + " " + " ".join(t[6 + 3 * k:9 + 3 * k])
+            v = oracle(sub, outs[k] + (" #" + extra if extra else ""), None)
+            if v: return "handshake %d on the same Ntlm object: %s" % (k + 1, v)
+        return None
     if t[0] != "auth": return None
     # everything the judgement needs is in the case line itself (corpus lines carry no expectation)
     uncps = lambda x: "" if x == "-" else "".join(chr(int(c, 16)) for c in x.split("."))
